@@ -25,7 +25,8 @@ Fail(r, conv, what, got, want) ==
     PrintT("@@J" \o ToJson([fail |-> what, sid |-> r.sid, n |-> r.n, conv |-> conv,
                             final |-> (Cardinality(Range(r.imported)) = nfiles),
                             got |-> got, want |-> want]))
-Chk(cond, r, conv, what, got, want) == cond \/ Fail(r, conv, what, got, want)
+\* (IF, not \/: inside an action TLC would explore both disjuncts)
+Chk(cond, r, conv, what, got, want) == IF cond THEN TRUE ELSE Fail(r, conv, what, got, want)
 
 RunsJ(rs) == [i \in DOMAIN rs |-> <<IF rs[i][1] = 0 THEN "c" ELSE "s", rs[i][2]>>]
 
